@@ -277,7 +277,7 @@ func c04Units(tier string) []Unit {
 // ---------------------------------------------------------------- C08
 
 func c08Units(tier string) []Unit {
-	add, get := mkUnits([]explore.Monitor{resolutionMonitor("C08"), availabilityMonitor("C08")})
+	add, get := mkUnits([]explore.Monitor{resolutionMonitor("C08"), availabilityMonitor("C08"), provideAcceptMonitor("C08")})
 	q := quick(tier)
 	d, b := 7, explore.Budget{Scopes: 2, Provides: 3, Decorates: 1, Invokes: 2, Rejected: 0}
 	if !q {
@@ -296,6 +296,11 @@ func c08Units(tier string) []Unit {
 			invokes: []*uFunc{iA, iB}, scopeOps: par}, d, b)
 		add("shadowing"+tag, cfg, nil, nil, alpha{scopes: []int{0, 1, 2}, ctors: []*uFunc{pA, pA2, pB},
 			decos: []*uFunc{dA}, invokes: []*uFunc{iA, iB}, scopeOps: []int{0, 1}}, d, b)
+		// exported constructors with group / optional / nested-object
+		// parameters, registered before and after others that depend on them:
+		// accepted from, and usable in, every scope
+		add("exported-consumers"+tag, cfg, nil, prefixFork, alpha{scopes: []int{0, 1, 2}, ctors: []*uFunc{pG, pD, fG1, pCo}, export: true,
+			invokes: []*uFunc{iC, iD}}, 5, explore.Budget{Provides: 3, Invokes: 2, Rejected: 1})
 		// a Provide on an ancestor rejected for a cycle that only a descendant
 		// sees must not disturb what the descendant (or anyone) resolves
 		br := explore.Budget{Scopes: 2, Provides: 4, Invokes: 2, Rejected: 1}
